@@ -129,6 +129,21 @@ def check_parser(case):
                         got2 = f"{type(e).__name__}: {e}"
                     if got2 != exp:
                         viol.append({"kind": "wrong-column-mapping", "detail": {**sub, "expected": exp, "got_on_second_parse": got2}})
+                if got == exp and sp == 0 and tplv is None:
+                    # the same string as the `format:` of a data source in settings.yaml (with a regex delimiter written with plain and
+                    # with named groups): accepted there too, same columns
+                    from tally.config_loader import resolve_source_format
+                    n = len(toks)
+                    for dl in ("regex:^" + r" \| ".join(["(.*?)"] * n) + "$", "regex:^" + r" \| ".join(["(?P<c%d>.*?)" % i for i in range(n)]) + "$"):
+                        evals += 1
+                        try:
+                            rs = resolve_source_format({"name": "S", "file": "s.csv", "format": s, "delimiter": dl})
+                            sp2 = rs["_format_spec"]
+                            got3 = (sp2.date_column, sp2.amount_column, sp2.description_column, sp2.location_column)
+                        except Exception as e:  # noqa
+                            got3 = f"{type(e).__name__}: {e}"
+                        if got3 != (exp["date_column"], exp["amount_column"], exp["description_column"], exp["location_column"]):
+                            viol.append({"kind": "wrong-column-mapping", "detail": {**sub, "as_source_format_with_delimiter": dl, "expected": exp, "got": got3}})
                 if got != exp:
                     viol.append({"kind": "wrong-column-mapping", "detail": {**sub, "expected": exp, "got": got}})
                 elif spec.description_column is None and spec.description_template != tplv:
